@@ -20,12 +20,14 @@ func init() {
 		Assumptions: []string{
 			"MTU {64,65,100,267,1200,65535}; payloaders G711, G722, Opus, H264, H265, VP8 with picture ids, VP9 flexible, AV1 with inputs shaped for each; start configurations (sequencer start, initial timestamp via the random seam) in {(0,0),(1234,0xFFFFFC40),(65534,0xFFFFFFFF),(65535,0x01020304)}; clock answers through the verif seam from instants around the 64 s wrap of the 24-bit field",
 			"call alphabet: Packetize(len in {1,B-1,B,B+1,2B,3B+5}, samples in {0,1,960,2^32-1}) (B = MTU-12), SkipSamples {0,1,2^31,2^32-1}, GeneratePadding {0,1,2}: all sequences of depth 2 over the full alphabet, depth 3 (thorough 4) over a 12-call sub-alphabet; MTU 1200 and 65535 use lengths {1,B,B+1} and depth 2",
+			"long runs: all sequences of 5 (quick) / 7 (thorough) calls over {Packetize(B+1,960), Packetize(1,1), SkipSamples(2^31), GeneratePadding(1), Packetize(300*B+7, 90000)} for MTU {64,100} x {G711, H264, VP8} x abs-send-time off/id 1 x 4 start configurations: trains of more than 256 packets and sequences that cross the 16-bit wrap in the middle of a train",
 			"Opus ignores the MTU by design: the size clause applies to Opus only when the payload fits the budget",
 		},
 		Scenarios: []mc.Scenario{
 			{Name: "call-sequences-depth-2-full-alphabet", Tiers: "qt", ShardDepth: 3, Run: func(c *mc.Ctx) { c06Run(c, 2, true) }},
 			{Name: "call-sequences-depth-3", Tiers: "qt", ShardDepth: 3, Run: func(c *mc.Ctx) { c06Run(c, 3, false) }},
 			{Name: "call-sequences-depth-4", Tiers: "t", ShardDepth: 4, Run: func(c *mc.Ctx) { c06Run(c, 4, false) }},
+			{Name: "long-sequences-and-long-trains", Tiers: "qt", ShardDepth: 3, Run: c06Long},
 		},
 	})
 }
@@ -164,6 +166,36 @@ func c06Run(c *mc.Ctx, depth int, full bool) {
 	for i := range ops {
 		ops[i] = mc.From(c, alphabet)
 	}
+	c06Drive(c, mtu, pi, absID, start, ops)
+}
+
+// c06Long: longer call sequences over a small alphabet that includes a train of more than
+// 256 packets.
+func c06Long(c *mc.Ctx) {
+	mtu := mc.From(c, []int{64, 100})
+	pi := mc.From(c, []int{0, 3, 5})
+	absID := mc.From(c, []int{0, 1})
+	start := mc.From(c, c06Starts)
+	depth, maxLong := 5, 1
+	if c.Thorough() {
+		depth, maxLong = 7, 2
+	}
+	alphabet := []c06Op{{0, 3, 960}, {0, 0, 1}, {1, 0, 1 << 31}, {2, 0, 1}, {0, 6, 90000}}
+	ops := make([]c06Op, depth)
+	long := 0
+	for i := range ops {
+		ops[i] = mc.From(c, alphabet)
+		if ops[i].lenIdx == 6 {
+			long++
+		}
+	}
+	if long > maxLong {
+		return // at most one (thorough: two) very long trains per sequence (bounds the cost)
+	}
+	c06Drive(c, mtu, pi, absID, start, ops)
+}
+
+func c06Drive(c *mc.Ctx, mtu, pi, absID int, start c06Start, ops []c06Op) {
 
 	rec := &c06Recorder{inner: c06Payloaders[pi].mk()}
 	restore := rtp.VerifSetRandom(&c06Gen{ts: start.ts})
@@ -181,7 +213,7 @@ func c06Run(c *mc.Ctx, depth int, full bool) {
 		p.EnableAbsSendTime(absID)
 	}
 	B := mtu - 12
-	lenOf := []int{1, B - 1, B, B + 1, 2 * B, 3*B + 5}
+	lenOf := []int{1, B - 1, B, B + 1, 2 * B, 3*B + 5, 300*B + 7}
 	var trace []string
 	hist := func() string {
 		return fmt.Sprintf("mtu=%d payloader=%s abs-send-time id=%d seq-start=%d initial-ts=%#x: %s", mtu, c06Payloaders[pi].name, absID, start.seq, start.ts, strings.Join(trace, "; "))
